@@ -24,6 +24,7 @@ RULE = (
 ASSUMPTIONS = [
     "R_a(t)=exp(-i t sigma_a/2); crot_a(t)=|0><0|(x)R_a(t)+|1><1|(x)R_a(-t), first operand control, axis from the mnemonic",
     "virtual id 0 is the electron, other ids are carbons; equality up to one global phase, tolerance 1e-9",
+    "NV controlled rotations have the electron as control and a carbon as target (the only form the transpiler's circuits and the NV gate documentation use)",
     "mov semantics: state transfer onto a target initialised in |0> (source left in a fixed state)",
 ]
 SHARDS = {"quick": 1, "thorough": 16}
@@ -61,6 +62,8 @@ def sequence_unitary(instrs, nq: int, init_regs=None) -> np.ndarray:
             U = qm.embed(G, [q], nq) @ U
         elif mn in ("crot_x", "crot_y"):
             q0, q1 = regs[ins.reg0], regs[ins.reg1]
+            if q0 != 0 or q1 == 0:
+                raise Failure("crot-control-not-electron", {"instr": str(ins), "control": q0, "target": q1}, f"emitted {ins} is controlled by virtual qubit {q0} with target {q1}: NV controlled rotations are electron-controlled (electron = virtual id 0) with a carbon target")
             G = qm.crot(mn[-1], qm.angle(ins.angle_num.value, ins.angle_denom.value))
             U = qm.embed(G, [q0, q1], nq) @ U
         else:
@@ -83,6 +86,15 @@ def _Q(i):
 
 
 def check_case(case) -> None:
+    try:
+        _check_case(case)
+    except Failure as f:
+        if f.case is not case and isinstance(f.case, dict) and "gate" not in f.case:
+            raise Failure(f.signature, case, f.message)
+        raise
+
+
+def _check_case(case) -> None:
     from netqasm.lang.instr import vanilla
     from netqasm.lang.operand import Immediate
     from netqasm.runtime.settings import set_is_using_hardware
@@ -270,13 +282,7 @@ def shard(ctx: Ctx) -> None:
 
     def run(case, label):
         stt.case(case, True, [label, case["gate"]], sample=case if case["gate"] not in ("rot_x", "rot_y", "rot_z") or stt.evaluations % 997 == 0 else None)
-        try:
-            if case["gate"] == "matrix":
-                check_matrix(case)
-            else:
-                check_case(case)
-        except Failure as f:
-            ctx.fail(f)
+        ctx.attempt(case, check_matrix if case["gate"] == "matrix" else check_case, case)
 
     if ctx.shard == 0:
         fc = fixed_cases()
